@@ -110,129 +110,173 @@ func runC03Interleaved(c *Ctx, emit func(cs *progs.Case) progs.Obs, stride int) 
 			{"first event logged after the outer one", true, []string{"level", "svc", "a", "d", "arr", "meta", "message"}},
 			{"second event logged after the outer one", true, []string{"level", "b", "k", "message"}}}
 	}
+	// an event of level Panic that the program logs and survives: started through Logger.Panic() - its finalizer writes
+	// the line, hands the event back and THEN panics by design; the program recovers (a request handler, a worker loop)
+	// and goes on - or, for contrast, through WithLevel(PanicLevel), which does not panic.  It has context, a hook and a
+	// Dict of its own.  Everything the program logs afterwards starts from what that finalizer left in the pools.
+	panicEvent := func(k int, panics bool) (*progs.Case, expectInner) {
+		st := progs.Step{Cops: []progs.Cop{cop(kp("svc", "Str", "worker")), {K: "hook", Sub: []progs.Op{mk(), kp("ph", "Int", k)}}}}
+		pe := &progs.Case{Level: 5, Steps: []progs.Step{st}, Fin: k % 4, Msg: []byte("boom"), Ops: []progs.Op{kp("why", "Str", "x"), dict("pd", kp("n", "Int", k))}}
+		what := "Panic-level event started through WithLevel(PanicLevel)"
+		if panics {
+			what = "Panic-level event started through Logger.Panic(), its panic recovered by the program"
+		}
+		return pe, expectInner{what, true, []string{"level", "svc", "why", "pd", "ph", "message"}}
+	}
 	k := 0
 	for wi, w := range words {
 		if len(w) == 3 && wi%stride != 0 {
 			continue
 		}
 		k++
-		level := []int{1, 0, 3, 6, 2}[k%5]
-		cs := &progs.Case{S: s, Now: now, Level: level, Msg: []byte(fmt.Sprintf("outer%d", k)), Fin: k % 4, Ops: []progs.Op{kp("e", "Str", "v")}}
-		expect := map[*progs.Case]expectInner{}
-		var order []*progs.Case
-		var keys []string
-		var ids []uint64
-		discarded := false
-		for i, ch := range w {
-			m := mk()
-			ids = append(ids, m.ID)
-			name := fmt.Sprintf("%c%d", ch+'a'-'A', i)
-			var h []progs.Op
-			switch ch {
-			case 'H':
-				h = []progs.Op{m, kp(name, "Int", i)}
-				keys = append(keys, name)
-			case 'X':
-				h = []progs.Op{m, kp(name, "Int", i), {K: "discard"}}
-				keys = append(keys, name)
-				discarded = true
-			case 'G':
-				in, ex := inner(k+i, k)
-				expect[in], order = ex, append(order, in)
-				h = []progs.Op{m, kp(name, "Int", i), progs.LogOp(cs, in, false), kp(name+"b", "Str", "after")}
-				keys = append(keys, name, name+"b")
-			case 'J':
-				h = []progs.Op{m, dict(name, kp("host", "Str", "h"), dict("in", kp("n", "Int", i)))}
-				keys = append(keys, name)
-			case 'A':
-				h = []progs.Op{m, {K: "array", Key: []byte(name), Via: (k+i)%2 == 0, Sub: []progs.Op{{K: "aelem", P: &progs.Prim{M: "Str", V: "x"}}, {K: "adict", Sub: []progs.Op{kp("y", "Int", i)}}, {K: "aobj", Sub: []progs.Op{mk(), kp("z", "Int", i)}}}}}
-				keys = append(keys, name)
-			case 'F':
-				oe := func(t string) *progs.ErrV { return &progs.ErrV{K: "obj", Ops: []progs.Op{mk(), kp("why", "Str", t)}} }
-				h = []progs.Op{m, {K: "fields", KVs: []progs.FieldKV{{Key: []byte(name), K: "errs", Es: []*progs.ErrV{oe("one"), {K: "nil"}, oe("two")}}}},
-					{K: "object", Key: []byte(name + "o"), Sub: []progs.Op{mk(), kp("p", "Int", i)}}}
-				keys = append(keys, name, name+"o")
-			}
-			cs.Steps = append(cs.Steps, progs.Step{Cops: []progs.Cop{{K: "hook", Sub: h}}, Noise: (k + i) % 4})
+		// variant 0: the program as it is.  1: first, in the caller's code right after the outer event was started (the
+		// outer event is in flight), a recovered Logger.Panic() event; 2: the recovered Logger.Panic() event is the first of
+		// the events that follow the outer one; 3: as 1 through WithLevel(PanicLevel) (no panic).  The short words run all
+		// of them, the words of length 3 one in rotation.
+		variants := []int{0, 1, 2, 3}
+		if len(w) == 3 {
+			variants = []int{0, 1 + k%3}
 		}
-		fs, fex := followers(k)
-		for i, f := range fs {
-			expect[f], order = fex[i], append(order, f)
-			cs.Ops = append(cs.Ops, progs.FollowOp(cs, f))
+		if c.Prop != "C03" {
+			variants = []int{0} // (C01 / C02 run this sweep for the lines' form only)
 		}
-		// what earlier programs of this run left in the event / array pools is dropped (a sync.Pool is emptied by two
-		// collections), so that a violation found here has this program as its whole input
-		runtime.GC()
-		runtime.GC()
-		o := emit(cs) // hooks of the outer and of every other event once and in order, their arguments; one Write per event
-		if o.Panic != nil {
-			continue
-		}
-		what := "hooks " + w + " (H field, X field+Discard, G logs through another logger, J Dict, A Arr, F Fields with object errors)"
-		if ran := hookMarksRan(cs, o); fmt.Sprint(ran) != fmt.Sprint(ids) {
-			c.Violate(Violation{Key: "hooks-not-once-in-order", Monitor: "hooks-once", Desc: fmt.Sprintf("%s: hook invocations %v, want %v (the hooks after a discarding hook still run)", what, ran, ids), Case: cs.Describe(), Observed: ran, Expected: ids})
-		}
-		switch {
-		case discarded && o.Written:
-			c.Violate(Violation{Key: "discarded-event-written", Monitor: "discard", Desc: what + ": a hook discarded the event, yet it reached its writer", Case: cs.Describe(), Observed: fmt.Sprintf("%q", o.Line)})
-		case !discarded && !o.Written:
-			c.Violate(Violation{Key: "enabled-event-not-written", Monitor: "layout", Desc: what + ": an enabled, undiscarded event was not written", Case: cs.Describe()})
-		case !discarded:
-			if v, err := oracle.CheckEventLine(o.Line); err == nil { // (else C01's monitor reports it)
-				want := append(append(append(levelKey(level), "e"), keys...), s.MessageName)
-				var got []string
-				for _, m := range v.Members {
-					got = append(got, m.Key)
+		for _, variant := range variants {
+			level := []int{1, 0, 3, 6, 2}[k%5]
+			cs := &progs.Case{S: s, Now: now, Level: level, Msg: []byte(fmt.Sprintf("outer%d", k)), Fin: k % 4, Ops: []progs.Op{kp("e", "Str", "v")}}
+			expect := map[*progs.Case]expectInner{}
+			var order []*progs.Case
+			var keys []string
+			var ids []uint64
+			discarded := false
+			for i, ch := range w {
+				m := mk()
+				ids = append(ids, m.ID)
+				name := fmt.Sprintf("%c%d", ch+'a'-'A', i)
+				var h []progs.Op
+				switch ch {
+				case 'H':
+					h = []progs.Op{m, kp(name, "Int", i)}
+					keys = append(keys, name)
+				case 'X':
+					h = []progs.Op{m, kp(name, "Int", i), {K: "discard"}}
+					keys = append(keys, name)
+					discarded = true
+				case 'G':
+					in, ex := inner(k+i, k)
+					expect[in], order = ex, append(order, in)
+					h = []progs.Op{m, kp(name, "Int", i), progs.LogOp(cs, in, false), kp(name+"b", "Str", "after")}
+					keys = append(keys, name, name+"b")
+				case 'J':
+					h = []progs.Op{m, dict(name, kp("host", "Str", "h"), dict("in", kp("n", "Int", i)))}
+					keys = append(keys, name)
+				case 'A':
+					h = []progs.Op{m, {K: "array", Key: []byte(name), Via: (k+i)%2 == 0, Sub: []progs.Op{{K: "aelem", P: &progs.Prim{M: "Str", V: "x"}}, {K: "adict", Sub: []progs.Op{kp("y", "Int", i)}}, {K: "aobj", Sub: []progs.Op{mk(), kp("z", "Int", i)}}}}}
+					keys = append(keys, name)
+				case 'F':
+					oe := func(t string) *progs.ErrV { return &progs.ErrV{K: "obj", Ops: []progs.Op{mk(), kp("why", "Str", t)}} }
+					h = []progs.Op{m, {K: "fields", KVs: []progs.FieldKV{{Key: []byte(name), K: "errs", Es: []*progs.ErrV{oe("one"), {K: "nil"}, oe("two")}}}},
+						{K: "object", Key: []byte(name + "o"), Sub: []progs.Op{mk(), kp("p", "Int", i)}}}
+					keys = append(keys, name, name+"o")
 				}
-				if fmt.Sprint(got) != fmt.Sprint(want) {
-					c.Violate(Violation{Key: "layout-order", Monitor: "layout", Desc: fmt.Sprintf("%s: member keys %q, want %q", what, got, want), Case: cs.Describe(), Observed: got, Expected: want})
+				cs.Steps = append(cs.Steps, progs.Step{Cops: []progs.Cop{{K: "hook", Sub: h}}, Noise: (k + i) % 4})
+			}
+			fs, fex := followers(k)
+			if variant == 2 {
+				pe, pex := panicEvent(k, true)
+				fs, fex = append([]*progs.Case{pe}, fs...), append([]expectInner{pex}, fex...)
+			}
+			for i, f := range fs {
+				expect[f], order = fex[i], append(order, f)
+				cs.Ops = append(cs.Ops, progs.FollowOp(cs, f))
+			}
+			if variant == 2 {
+				fs[0].Entry = 6 // (FollowOp starts from the plain entry)
+			}
+			if variant == 1 || variant == 3 {
+				pe, pex := panicEvent(k, variant == 1)
+				expect[pe], order = pex, append(order, pe)
+				cs.Ops = append([]progs.Op{progs.LogOp(cs, pe, false)}, cs.Ops...)
+				if variant == 1 {
+					pe.Entry = 6
 				}
 			}
-		}
-		// the other events of the program
-		seen := map[*progs.Case]bool{}
-		wantWrites := 0
-		for i, r := range o.Nested {
-			ex, ok := expect[r.N.In]
-			if !ok || !r.Done {
+			// what earlier programs of this run left in the event / array pools is dropped (a sync.Pool is emptied by two
+			// collections), so that a violation found here has this program as its whole input
+			runtime.GC()
+			runtime.GC()
+			o := emit(cs) // hooks of the outer and of every other event once and in order, their arguments; one Write per event
+			if o.Panic != nil {
 				continue
 			}
-			seen[r.N.In] = true
-			if ex.written {
-				wantWrites++
+			what := "hooks " + w + " (H field, X field+Discard, G logs through another logger, J Dict, A Arr, F Fields with object errors)" +
+				[]string{"", "; before the outer event's first field the program logs a Panic() event and recovers", "; the first event after the outer one is a Panic() event whose panic the program recovers",
+					"; before the outer event's first field the program logs a WithLevel(PanicLevel) event"}[variant]
+			if ran := hookMarksRan(cs, o); fmt.Sprint(ran) != fmt.Sprint(ids) {
+				c.Violate(Violation{Key: "hooks-not-once-in-order", Monitor: "hooks-once", Desc: fmt.Sprintf("%s: hook invocations %v, want %v (the hooks after a discarding hook still run)", what, ran, ids), Case: cs.Describe(), Observed: ran, Expected: ids})
 			}
-			desc := map[string]interface{}{"program": cs.Describe(), "event_number": i, "event": r.N.In.Describe(), "outer_line": fmt.Sprintf("%q", o.Line), "writes_on_the_other_writer": quoteAll(o.NestLines)}
 			switch {
-			case ex.written && !r.Obs.Written:
-				c.Violate(Violation{Key: "enabled-event-not-written", Monitor: "layout", Desc: what + ": " + ex.what + ": an enabled, undiscarded event was not written", Case: desc})
-			case !ex.written && r.Obs.Written:
-				c.Violate(Violation{Key: "discarded-event-written", Monitor: "discard", Desc: what + ": " + ex.what + " reached its writer", Case: desc, Observed: fmt.Sprintf("%q", r.Obs.Line)})
-			case ex.written:
-				v, err := oracle.CheckEventLine(r.Obs.Line)
-				if err != nil {
-					break // monitorNested reports it
-				}
-				var got []string
-				for _, m := range v.Members {
-					got = append(got, m.Key)
-				}
-				if fmt.Sprint(got) != fmt.Sprint(ex.keys) {
-					c.Violate(Violation{Key: "layout-order", Monitor: "layout", Desc: fmt.Sprintf("%s: %s: member keys %q, want %q", what, ex.what, got, ex.keys), Case: desc, Observed: got, Expected: ex.keys})
+			case discarded && o.Written:
+				c.Violate(Violation{Key: "discarded-event-written", Monitor: "discard", Desc: what + ": a hook discarded the event, yet it reached its writer", Case: cs.Describe(), Observed: fmt.Sprintf("%q", o.Line)})
+			case !discarded && !o.Written:
+				c.Violate(Violation{Key: "enabled-event-not-written", Monitor: "layout", Desc: what + ": an enabled, undiscarded event was not written", Case: cs.Describe()})
+			case !discarded:
+				if v, err := oracle.CheckEventLine(o.Line); err == nil { // (else C01's monitor reports it)
+					want := append(append(append(levelKey(level), "e"), keys...), s.MessageName)
+					var got []string
+					for _, m := range v.Members {
+						got = append(got, m.Key)
+					}
+					if fmt.Sprint(got) != fmt.Sprint(want) {
+						c.Violate(Violation{Key: "layout-order", Monitor: "layout", Desc: fmt.Sprintf("%s: member keys %q, want %q", what, got, want), Case: cs.Describe(), Observed: got, Expected: want})
+					}
 				}
 			}
-		}
-		for _, in := range order {
-			if !seen[in] {
-				c.Violate(Violation{Key: "hooks-not-once-in-order", Monitor: "hooks-once", Desc: what + ": " + expect[in].what + ": the event was never logged (the hook that logs it did not run to its end)", Case: cs.Describe()})
+			// the other events of the program
+			seen := map[*progs.Case]bool{}
+			wantWrites := 0
+			for i, r := range o.Nested {
+				ex, ok := expect[r.N.In]
+				if !ok || !r.Done {
+					continue
+				}
+				seen[r.N.In] = true
+				if ex.written {
+					wantWrites++
+				}
+				desc := map[string]interface{}{"program": cs.Describe(), "event_number": i, "event": r.N.In.Describe(), "outer_line": fmt.Sprintf("%q", o.Line), "writes_on_the_other_writer": quoteAll(o.NestLines)}
+				switch {
+				case ex.written && !r.Obs.Written:
+					c.Violate(Violation{Key: "enabled-event-not-written", Monitor: "layout", Desc: what + ": " + ex.what + ": an enabled, undiscarded event was not written", Case: desc})
+				case !ex.written && r.Obs.Written:
+					c.Violate(Violation{Key: "discarded-event-written", Monitor: "discard", Desc: what + ": " + ex.what + " reached its writer", Case: desc, Observed: fmt.Sprintf("%q", r.Obs.Line)})
+				case ex.written:
+					v, err := oracle.CheckEventLine(r.Obs.Line)
+					if err != nil {
+						break // monitorNested reports it
+					}
+					var got []string
+					for _, m := range v.Members {
+						got = append(got, m.Key)
+					}
+					if fmt.Sprint(got) != fmt.Sprint(ex.keys) {
+						c.Violate(Violation{Key: "layout-order", Monitor: "layout", Desc: fmt.Sprintf("%s: %s: member keys %q, want %q", what, ex.what, got, ex.keys), Case: desc, Observed: got, Expected: ex.keys})
+					}
+				}
 			}
+			for _, in := range order {
+				if !seen[in] {
+					c.Violate(Violation{Key: "hooks-not-once-in-order", Monitor: "hooks-once", Desc: what + ": " + expect[in].what + ": the event was never logged (the hook that logs it did not run to its end)", Case: cs.Describe()})
+				}
+			}
+			// every Write on the other writer is the one Write of an event that is to be written: nothing a hook discarded
+			// (the outer event included) gets there
+			if len(o.NestLines) != wantWrites {
+				c.Violate(Violation{Key: "discarded-event-written", Monitor: "discard", Desc: fmt.Sprintf("%s: the writer of the other events received %d Write calls; %d of those events are enabled and undiscarded", what, len(o.NestLines), wantWrites), Case: cs.Describe(), Observed: quoteAll(o.NestLines)})
+			}
+			c.Hist("c03_interleaved_word_len", fmt.Sprint(len(w)))
+			c.Hist("c03_interleaved_outer_discarded", fmt.Sprint(discarded))
+			c.Hist("c03_interleaved_panic_level_event", []string{"none", "recovered Logger.Panic() while the outer event is in flight", "recovered Logger.Panic() as the first following event", "WithLevel(PanicLevel) while the outer event is in flight"}[variant])
 		}
-		// every Write on the other writer is the one Write of an event that is to be written: nothing a hook discarded
-		// (the outer event included) gets there
-		if len(o.NestLines) != wantWrites {
-			c.Violate(Violation{Key: "discarded-event-written", Monitor: "discard", Desc: fmt.Sprintf("%s: the writer of the other events received %d Write calls; %d of those events are enabled and undiscarded", what, len(o.NestLines), wantWrites), Case: cs.Describe(), Observed: quoteAll(o.NestLines)})
-		}
-		c.Hist("c03_interleaved_word_len", fmt.Sprint(len(w)))
-		c.Hist("c03_interleaved_outer_discarded", fmt.Sprint(discarded))
 	}
 }
 
